@@ -1094,7 +1094,7 @@ def spec_read(text):
     declared = set()
     u_card_ok = True
     for c in cells:
-        pu = c["params"].get("U")
+        pu = c["params"].get("U") or c["params"].get("*U")     # MontePy reads `*u=11` as u=11: no demand about it
         if pu and re.match(r"^-?\d+$", pu[0]):
             declared.add(abs(int(pu[0])))
     for card in blocks[2]:
